@@ -120,7 +120,7 @@ class Server:
             def reply(mid=msg["id"]):
                 try:
                     self._send({"jsonrpc": "2.0", "id": mid, "result": None}, {"dir": "c2s", "method": "response", "id": mid})
-                except ServerDied:
+                except (ServerDied, ValueError):      # ValueError: the session was closed before a delayed reply was due
                     pass
             if self.reply_delay:
                 t = threading.Timer(self.reply_delay, reply)
